@@ -303,8 +303,10 @@ def key_ok(t):
         kind = t[1]
         if kind == 'tuple':
             return len(t[2]) <= 12 and all(key_ok(x) for x in t[2])
-        if kind in ('sockv4', 'sockv6'):
+        if kind == 'sockv4':
             return True
+        if kind == 'sockv6':      # Ord/Hash/Eq see flowinfo and scope_id, the format does not (finding F22): not a key type
+            return False
         if isinstance(kind, tuple) and kind[0] == 'struct':
             return not any(kind[3]) and all(key_ok(x) for x in t[2])
         if isinstance(kind, tuple) and kind[0] == 'variant':
